@@ -23,6 +23,7 @@
 -/
 import EasyMl.Lemmas.TapeProg
 import EasyMl.Lemmas.Prog
+import EasyMl.Lemmas.RealBridge
 
 namespace EasyMl.C04
 open EasyMl EasyMl.Spec
@@ -193,5 +194,48 @@ theorem independent_inputs_zero (p : Prog R) (hp : p.WellScoped) (h : Nat) (env 
 
 example : Prog.isInput ([.var, .const 3, .var, .arith .mul 0 1] : Prog R) 2 = true := rfl
 example : (Prog.reach ([.var, .const 3, .var, .arith .mul 0 1] : Prog R) 2).getD 3 false = false := rfl
+
+/-! ### the analytic meaning over ℝ -/
+
+/-- **The formal partial derivative is the analytic one.**  Over ℝ (with `sqrt exp ln sin cos`,
+    `x ^ y` read as Mathlib's real functions), for every program, every input `i` and every
+    result `k`: if every instruction is differentiable at the point where it is evaluated
+    (`Prog.Regular`: non-zero divisors, `ln`/`sqrt` away from 0, positive base of a varying power,
+    user functions having the derivatives they were handed over), then the value of `k` as a
+    function of input `i` (the others fixed) has derivative `(Prog.grad env p i)[k]` at `env i`. -/
+theorem grad_hasDerivAt (p : Prog ℝ) (env : Nat → ℝ) (hreg : p.Regular env) (i k : Nat) :
+    HasDerivAt (fun x => (Prog.eval (Function.update env i x) p).getD k 0)
+      ((Prog.grad env p i).getD k 0) (env i) := by
+  have h0 : DInv i env (fun _ => []) [] :=
+    ⟨fun _ => rfl, fun k => by simpa using hasDerivAt_const (env i) (0 : ℝ)⟩
+  exact (prog_hasDerivAt i env p (fun _ => []) [] h0 hreg).der k
+
+example : Prog.Regular (fun _ => (2 : ℝ))
+    [.var, .var, .arith .div 0 1, .real .sin 2, .real .ln 1, .powNum 0 3] := by
+  simp [Prog.Regular, Prog.RegularFrom, Instr.Regular, Instr.val]
+
+/-- **Reverse mode returns the true partial derivative** (C04's headline, end to end over ℝ):
+    for a regular program run with records on a tape, the entry of `derivatives()` of a result
+    `k` at the position of input `i` is the derivative of the plain computation of `k` with
+    respect to input `i` at the input point. -/
+theorem reverse_hasDerivAt (p : Prog ℝ) (hp : p.WellScoped) (h : Nat) (env : Nat → ℝ)
+    (w0 : World ℝ) (hw0 : Tape.WF (w0 h)) (hreg : p.Regular env) :
+    ∃ w recs, Prog.exec h env p w0 = (w, .ok recs) ∧
+      ∀ k i, k < p.length → p.isInput i = true →
+        ∀ adj, (getRec recs k).derivatives w = .ok adj →
+          HasDerivAt (fun x => (Prog.eval (Function.update env i x) p).getD k 0)
+            (adj.getD (getRec recs i).index 0) (env i) := by
+  obtain ⟨w, recs, hrun, _, hall⟩ := reverse_eq_grad p hp h env w0 hw0
+  refine ⟨w, recs, hrun, fun k i hk hi adj hadj => ?_⟩
+  have := hall k hk
+  cases hh : (getRec recs k).history with
+  | none => simp [Rec.derivatives, Rec.tryDerivatives, hh] at hadj
+  | some h' =>
+    simp only [hh] at this
+    obtain ⟨adj', h1, _, h3⟩ := this
+    rw [hadj] at h1
+    cases h1
+    rw [h3 i hi]
+    exact grad_hasDerivAt p env hreg i k
 
 end EasyMl.C04
